@@ -33,6 +33,7 @@ func main() {
 		}
 		fmt.Print(dumpAnchors(c))
 		fmt.Print(dumpFields(c))
+		fmt.Print(dumpKnownFuncs(*repo))
 		return
 	}
 
